@@ -531,7 +531,7 @@ def rule_h(ctx):
         except (Refuse, Raised):
             pass
     X = me.fields.get("X")
-    want = [[f"self.kernel(<opaque s S{i}>, <opaque s S{j}>)" for j in range(2)] for i in range(2)]
+    want = [[f"K(<opaque s S{i}>, <opaque s S{j}>)" for j in range(2)] for i in range(2)]
     if not isinstance(X, Arr):
         ctx.ob(R, f.qname, "every entry X[i, j], diagonal included, is kernel(supports[i], supports[j])", False, "assembly of self.X not found by the symbolic fold", f.node)
     else:
